@@ -63,9 +63,10 @@
 //	    Everything else is conditional: any other condition (an option, a revision, a length, a nil
 //	    test of something else - `if m.BelongsTo != nil`, `if ms.typeDict == nil { return }` before
 //	    the reset of ms.includes), the then-branch of `X == nil` (lazy initialisation is not a
-//	    reset), an if with an init statement, switch / for bodies, everything after a statement
-//	    that may leave by break / goto / labelled continue / return inside a loop (they also end
-//	    the visits of the REMAINING elements).  Classes:
+//	    reset), an if with an init statement, switch / for bodies, everything after an if / switch
+//	    / block that contains any other break, continue, goto or return (in a loop they also end
+//	    the visits of the REMAINING elements), everything after a loop that contains a return, a
+//	    goto or a labelled branch.  Classes:
 //	      full-reset       assigned nil / an empty literal / make(...) / clear(x.f) / every key
 //	                       deleted, unconditionally; for a field of AST nodes: assigned a zero
 //	                       value for every element of a slice field of every module of EVERY
